@@ -670,12 +670,12 @@ def unit_padded_fixed_row():
 
 # ---- native side for the writer: write rows, read them back
 class WriterOracle(Oracle):
-    quick_cases = 3000
+    quick_cases = 8000
     bound = "sequences of 0-4 rows (0-6 thorough) from a pool of accepted / field-rejected / wrong-count / duplicate rows x {delimited, fixed} x header 0-1, read back under the same CID; writer used after an earlier read with the same CID"
     POOL = [["1", "ab"], ["2", "c"], ["1", "zz"], ["x", "ab"], ["3"], ["4", "ab", "q"], ["5", "toolong"], ["6", ""], [" 7", " b"]]       # the last one: leading blanks are part of the value
     def cases(self, ctx):
         k = 0
-        for fmt in ("delimited", "fixed", "fixed-crlf", "fixed-cr", "fixed-none"):
+        for fmt in ("fixed-crlf", "fixed-cr", "fixed-none", "delimited", "fixed"):          # the small families first: the quick tier's case budget must not cut them off
             for header in (0, 1):
                 for n in range(0, 7 if ctx.thorough else 5):
                     if fmt.startswith("fixed-") and n > 2: continue
